@@ -3,6 +3,7 @@ package main
 import (
 	"fmt"
 	"github.com/flosch/pongo2/v6"
+	"io"
 	"runtime"
 	"strings"
 	"sync"
@@ -154,7 +155,127 @@ func c05DeepRecursion(c *C) {
 	c.Nontrivial(fmt.Sprintf("deeprec:%d:%d:%v", k, d, imported))
 }
 
+// c05GateLoader: a loader whose fetches of gated names wait until the harness lets them go.
+type c05GateLoader struct {
+	mu      sync.Mutex
+	content map[string]string
+	gets    map[string]int
+	gate    map[string]chan struct{}
+	inGet   chan string
+}
+
+func (l *c05GateLoader) Abs(base, name string) string { return name }
+func (l *c05GateLoader) Get(p string) (io.Reader, error) {
+	l.mu.Lock()
+	s, ok := l.content[p]
+	l.gets[p]++
+	g := l.gate[p]
+	l.mu.Unlock()
+	if g != nil {
+		select {
+		case l.inGet <- p:
+		default:
+		}
+		<-g
+	}
+	if !ok {
+		return nil, fmt.Errorf("c05GateLoader: no template %q", p)
+	}
+	return strings.NewReader(s), nil
+}
+
+// c05CacheOverlap: fetching from one set at the same time. (1) k goroutines ask FromCache for a name whose load is slow:
+// one load, one template for all. (2) While a FromCache call is loading the old source of a name, the source changes and
+// CleanCache(name) is called and returns: whoever asks afterwards gets the new source.
+func c05CacheOverlap(c *C) {
+	r := c.R
+	l := &c05GateLoader{content: map[string]string{"/x.tpl": "old {{ v }}", "/y.tpl": "y {{ v }}"}, gets: map[string]int{}, gate: map[string]chan struct{}{}, inGet: make(chan string, 64)}
+	set := pongo2.NewSet("c05-cache-overlap", l)
+	// (1)
+	k := 2 + r.Intn(7)
+	gateY := make(chan struct{})
+	l.gate["/y.tpl"] = gateY
+	tpls := make([]*pongo2.Template, k)
+	var wg sync.WaitGroup
+	for g := 0; g < k; g++ {
+		wg.Add(1)
+		go func(g int) {
+			defer wg.Done()
+			tpls[g], _ = set.FromCache("/y.tpl")
+		}(g)
+	}
+	<-l.inGet // the first load is under way
+	for i := 0; i < 200; i++ {
+		runtime.Gosched() // let the others arrive (they wait for the first one, or - wrongly - start loads of their own)
+	}
+	close(gateY)
+	wg.Wait()
+	c.Eval(k)
+	l.mu.Lock()
+	getsY := l.gets["/y.tpl"]
+	l.mu.Unlock()
+	distinct := map[*pongo2.Template]bool{}
+	for _, t := range tpls {
+		distinct[t] = true
+	}
+	if getsY != 1 || len(distinct) != 1 || tpls[0] == nil {
+		c.Fail("concurrent-result-differs", D{"what": fmt.Sprintf("%d goroutines called FromCache(\"/y.tpl\") while the first load was in progress", k), "loader_fetches": getsY, "distinct_templates_returned": len(distinct),
+			"why": "alone each call returns THE cached template of the name, compiled once"})
+		return
+	}
+	// (2)
+	gateX := make(chan struct{})
+	l.mu.Lock()
+	l.gate["/x.tpl"] = gateX
+	l.mu.Unlock()
+	doneA := make(chan *pongo2.Template, 1)
+	go func() {
+		t, _ := set.FromCache("/x.tpl")
+		doneA <- t
+	}()
+	<-l.inGet // A is loading the old source
+	l.mu.Lock()
+	l.content["/x.tpl"] = "new {{ v }}"
+	l.gate["/x.tpl"] = nil
+	l.mu.Unlock()
+	cleaned := make(chan struct{})
+	go func() {
+		set.CleanCache("/x.tpl")
+		close(cleaned)
+	}()
+	// CleanCache either returns at once or waits for the load in progress; the load is let go after it returned or after
+	// a short while (the sleep only steers the interleaving: the expected result below is the same for every timing)
+	select {
+	case <-cleaned:
+	case <-time.After(time.Duration(2+r.Intn(20)) * time.Millisecond):
+	}
+	close(gateX)
+	tA := <-doneA
+	<-cleaned
+	after, err := set.FromCache("/x.tpl")
+	c.Eval(3)
+	out := ""
+	if err == nil {
+		out, _ = after.Execute(pongo2.Context{"v": 1})
+	}
+	if err != nil || out != "new 1" {
+		outA := ""
+		if tA != nil {
+			outA, _ = tA.Execute(pongo2.Context{"v": 1})
+		}
+		c.Fail("concurrent-result-differs", D{"history": []string{"A: FromCache(/x.tpl) starts loading the source \"old {{ v }}\"", "the source changes to \"new {{ v }}\"", "B: CleanCache(/x.tpl) is called and returns", "A's load is let go and returns (renders " + q(outA) + ")", "FromCache(/x.tpl) after both returned"},
+			"output": q(out), "expected": q("new 1"), "error": errStr(err), "why": "a call made after CleanCache(name) returned must not be served what was loaded from the source as it was before"})
+		return
+	}
+	c.Cover("cache_overlap_single_load_and_clean_during_load")
+	c.Nontrivial(fmt.Sprintf("cacheoverlap:%d", k))
+}
+
 func c05Run(c *C) {
+	if c.Idx%40 == 33 {
+		c05CacheOverlap(c)
+		return
+	}
 	if c.Idx%40 == 13 {
 		c05DeepRecursion(c)
 		return
@@ -196,6 +317,25 @@ func c05Run(c *C) {
 		fs, _ := newSet(p.files)
 		if t, e := fs.FromString(strSrc); e == nil {
 			refsStr[i] = detExec(t, detPool(p.inc, nil)[i], 0)
+		}
+	}
+	// a third template, the same source in every case, compiled once here and shared by all goroutines: the rarely used
+	// call conventions and parameter forms in one place (context functions taking the *ExecutionContext with 0, 3, 5 and
+	// variadic arguments, list-literal parameters, macro defaults, methods and fields of records whose Go type differs
+	// from context to context)
+	const fixedSrc = "{{ f_ctx3(s, \"b\", s) }}|{{ f_ctx5(s, 1, 2, n, 4) }}|{{ f_ctxv(1, n, 3) }}|{{ f_ctxv() }}|{{ f_ctxv(1, 2, 3, 4, 5, 6, n) }}|{{ \"\"|default:[s, n]|join:\"-\" }}|" +
+		"{% macro fm(a, b=s, c=n) %}{{ a }}{{ b }}{{ c }}{% endmacro %}{{ fm(1) }}{{ fm(s, n) }}|{{ rec.Label }}|{{ rec.Name }}|{{ rec.PLabel }}|{{ twin.Name }}{{ twin.Note }}|{{ lst|join:s }}|{{ s|slice:\"1:\" }}|{{ z_struct.Name }}|" +
+		"{% for x in lst %}{{ f_ctx3(x, s, x) }}{{ rec.Label }}{% endfor %}|{% with w=rec %}{{ w.Label }}{{ w.Email }}{% endwith %}"
+	var fixedShared *pongo2.Template
+	refsFixed := make([]execResult, npool)
+	{
+		fset, _ := newSet(p.files)
+		fixedShared, _ = fset.FromString(fixedSrc)
+		for i := 0; i < npool && fixedShared != nil; i++ {
+			fs, _ := newSet(p.files)
+			if t, e := fs.FromString(fixedSrc); e == nil {
+				refsFixed[i] = detExec(t, detPool(p.inc, nil)[i], 0)
+			}
 		}
 	}
 	// block by block through ExecuteBlocks, all goroutines passing the SAME names slice (it is only read by the engine)
@@ -258,6 +398,10 @@ func c05Run(c *C) {
 					if t, e := set.FromString(strSrc); e == nil {
 						tpl, op = t, "FromString+execute"
 					}
+				case 3, 4:
+					if fixedShared != nil {
+						tpl, op = fixedShared, "execute-shared-fixed-template"
+					}
 				}
 				if gr.Intn(8) == 0 && onSet {
 					m, berr := shared.ExecuteBlocks(pool[ci], sharedNames)
@@ -272,7 +416,7 @@ func c05Run(c *C) {
 				}
 				got, rawErr := detExecErr(tpl, pool[ci], gr.Intn(4))
 				if rawErr != nil {
-					if why := detErrorInSources(rawErr, p, map[string]string{"<string>": strSrc}); why != "" {
+					if why := detErrorInSources(rawErr, p, map[string]string{"<string>": map[bool]string{false: strSrc, true: fixedSrc}[op == "execute-shared-fixed-template"]}); why != "" {
 						mu.Lock()
 						if len(mm) < 3 {
 							mm = append(mm, mismatch{g, it, ci, op + " (error position: " + why + ")", got, refs[ci]})
@@ -283,6 +427,9 @@ func c05Run(c *C) {
 				want := refs[ci]
 				if op == "FromString+execute" {
 					want = refsStr[ci]
+				}
+				if op == "execute-shared-fixed-template" {
+					want = refsFixed[ci]
 				}
 				if got != want {
 					mu.Lock()
